@@ -7,6 +7,10 @@
   CAPREG    every (kind, lookup key) the serializer can dispatch through a union is registered in the lookup
   BORROW    slice reads reach visit_borrowed, and the string/bytes visitors reach visit_borrowed_str/bytes
   LEPAIR    to_le_bytes (ser) <-> from_le_bytes (de) for float and double
+            ... and the unit variant "Null" the decoder presents a null branch as selects the null branch when
+            serializing                                                                         (found F24)
+  DECF64    an f64 presented for a decimal is converted through its shortest printed representation, not from_f64
+            (found F33); CAPREG: a registered (kind, key) has an arm (no reviewed "yields Err" exceptions: F34)
   ENUMSYM   an Avro enum reaches the caller by symbol text through every hint a Rust enum / identifier / string uses
             (identifier, any, str, string), never by bare position: the serializer resolves unit variants by name
   shared    DECSCALE + FREEZEMAP (c02), SLICE / VARINT / FIXEDBUF reading primitives (c11), POOLCLEAN (c14: pooled
